@@ -311,5 +311,7 @@ func checkProofResult(result, value []byte) bool {
 	s = append(s, tempBytes...)
 	// TODO
 	//hash := crypto.Keccak256(value)
-	return bytes.Equal(s, value)
+	// the storage word is 32 bytes: a shorter claimed value (the 8-byte clean
+	// sequence) is stored left-padded
+	return bytes.Equal(s, common.LeftPadBytes(value, 32))
 }
